@@ -50,6 +50,8 @@ def make_faulty(mode, at=1):
         if st["armed"] and st["n"] >= at:
             if mode == "raise":
                 raise ValueError("injected field_func failure")
+            if mode == "interrupt":   # not an Exception subclass (Ctrl-C during a slow user function)
+                raise KeyboardInterrupt("injected interrupt")
             if mode == "none":
                 return None
             if mode == "shape":
@@ -359,7 +361,7 @@ def run_case(case, inject_k=None):
     return {"outcome": outcome, "problems": problems, "ncalls": ncalls}
 
 
-PROBE_FAULTS = ("none", "ff_raise", "exc_none", "agg_argmax")  # twin-history probe; buffer flags/aliasing are checked always
+PROBE_FAULTS = ("none", "ff_raise", "ff_interrupt", "exc_none", "agg_argmax")  # twin-history probe; buffer flags/aliasing are checked always
 
 
 def probe_futures(case, involved, arrs, result):
@@ -485,8 +487,8 @@ def traced_call(call, k):
 
 
 # ------------------------------------------------------------------ enumeration
-FF_MODES = {"ff_raise": "raise", "ff_retnone": "none", "ff_shape": "shape", "ff_list": "list"}
-PUBLIC_FAULTS = ["none", "output_df", "dim_none", "exc_none", "ff_missing", "ff_raise", "ff_retnone", "ff_shape",
+FF_MODES = {"ff_interrupt": "interrupt", "ff_raise": "raise", "ff_retnone": "none", "ff_shape": "shape", "ff_list": "list"}
+PUBLIC_FAULTS = ["none", "output_df", "dim_none", "exc_none", "ff_missing", "ff_interrupt", "ff_raise", "ff_retnone", "ff_shape",
                  "ff_list", "agg_bad", "agg_argmax", "agg_nonreduce", "output_bad", "inout_bad", "inout_inside",
                  "pix_unequal", "kwargs_mixed", "obs_bad", "obs_shape", "src_bad", "src_empty_coll"]
 def enumerate_cases(tier):
